@@ -714,6 +714,7 @@ def run_schedule(scn, policy=None, schedule=None):
                 ths2 = make_ths(storage, s2, {'p': np.zeros((len(s2), 1), 'uint8')}, 'B%d' % j)
                 cont = scared.TTestContainer(ths1, ths2, frame=np_frame(scn['frame']), preprocesses=list(pps))
                 before = getattr(tt, 'result', SENT)
+                cnt_before = acc_counts(tt)
                 exc = None
                 d0 = sim.decisions
                 sys.settrace(global_tracer if seam else None)
@@ -728,7 +729,8 @@ def run_schedule(scn, policy=None, schedule=None):
                 after = getattr(tt, 'result', SENT)
                 sim.ev('run-returned', j, type(exc).__name__ if exc is not None and exc != 'ABORT' else exc)
                 res = None if after is SENT else np.array(after)
-                outcomes.append({'exc': exc, 'fresh_result': after is not before, 'result': res, 'decisions': sim.decisions - d0})
+                outcomes.append({'exc': exc, 'fresh_result': after is not before, 'result': res, 'decisions': sim.decisions - d0,
+                                 'cnt_before': cnt_before, 'sizes': [len(s1), len(s2)]})
                 if exc == 'ABORT' or sim.aborted:
                     break
                 # drain surviving accumulator threads (not judged)
@@ -740,6 +742,7 @@ def run_schedule(scn, policy=None, schedule=None):
                     finally:
                         sim.threads['main']['state'] = 'runnable'
                 sim.settle()
+                outcomes[-1]['cnt_after'] = acc_counts(tt)
     except SimAbort:
         pass
     finally:
@@ -764,6 +767,17 @@ def run_schedule(scn, policy=None, schedule=None):
             mid += 1
     return {'sim': sim, 'outcomes': outcomes, 'fired': fired, 'injected': sim.injected, 'acc_to_acc_switches': mid,
             'digest': rng.digest([sim.log, sim.ctx]), 'ctx_digest': rng.digest(sim.ctx), 'storage_events': storage.seq}
+
+
+def acc_counts(tt):
+    """processed_traces of the two accumulators (public attributes); None if this tree does not expose them."""
+    try:
+        accs = list(tt.accumulators)
+        if len(accs) == 0:
+            return [0, 0]
+        return [int(a.processed_traces) for a in accs]
+    except Exception:
+        return None
 
 
 def viol(oracle, sig, detail):
@@ -810,8 +824,18 @@ def judge(scn, ex, images):
                 return viol('result_despite_failure', ['C09', 'result_despite_failure'], 'run %d raised %r but a fresh result was set' % (j, exc))
             continue
         if failed_before:
-            # an earlier run() failed: its accumulators hold a schedule-dependent part of a set, so the value of later results is not promised;
-            # only later *failing* runs are judged (they must re-raise, above)
+            # an earlier run() failed: its accumulators hold a schedule-dependent part of a set, so the *value* of later results is not promised.
+            # What "repeated runs accumulate as if the sets were concatenated" still promises for a healthy run is conservation: it returns
+            # normally and each accumulator grows by exactly the size of its own set (later failing runs must re-raise, above)
+            if o['exc'] is not None:
+                return viol('run_raised', ['C09', 'run_raised', type(o['exc']).__name__, 'after_failure'],
+                            'run %d raised %r without any injected fault (an earlier run had failed)' % (j, o['exc']))
+            cb, ca = o.get('cnt_before'), o.get('cnt_after')
+            if cb is not None and ca is not None and len(cb) == 2 and len(ca) == 2:
+                grew = [ca[0] - cb[0], ca[1] - cb[1]]
+                if grew != o['sizes']:
+                    return viol('healthy_run_not_fully_accumulated', ['C09', 'healthy_run_not_fully_accumulated', 'after_failure'],
+                                'run %d (no fault, after a failed run): accumulators grew by %s traces, the sets have %s' % (j, grew, o['sizes']))
             continue
         if o['exc'] is not None:
             return viol('run_raised', ['C09', 'run_raised', type(o['exc']).__name__], 'run %d raised %r without any injected fault' % (j, o['exc']))
